@@ -32,6 +32,11 @@ def gen_case(rng):
     nested = {"n": rng.choice([3, "deep", 2.25])}
     doc["m"] = nested
     scal["m.n"] = nested["n"]
+    if rng.random() < 0.2:
+        # a key that CONTAINS dots is one key: `{svc.port}` walks svc -> port and never finds it
+        doc[rng.choice(["svc.port", "m.zz", "m.n.x", "a.b"])] = rng.choice([8080, "dotted"])
+        if rng.random() < 0.5:
+            doc["svc"] = {"host": "h"}
     r = rng.random()
     if r < 0.6:
         segs, expect, ok = [], "", True
@@ -51,7 +56,7 @@ def gen_case(rng):
                     segs.append("{$env:" + name + "}")
                     expect += ENVV[name]
                 else:
-                    segs.append("{" + rng.choice(["nosuch", "$env:UNSET", "m.zz", "$repeat"]) + "}")
+                    segs.append("{" + rng.choice(["nosuch", "$env:UNSET", "m.zz", "$repeat", "svc.port", "m.n.x"]) + "}")
                     ok = False
         tmpl = "$\"" + "".join(segs) + "\""
         if rng.random() < 0.25 and tmpl not in doc:
